@@ -9,6 +9,7 @@ The ADC theorems carry the explicit guard `V_min < V_max`: a constant record has
 -/
 import OptiVerif.Lemmas.Quant
 import OptiVerif.Lemmas.QuantMono
+import OptiVerif.Lemmas.QuantAffine
 
 namespace OptiVerif.Props.C18
 open OptiVerif OptiVerif.Quant
@@ -309,6 +310,50 @@ theorem adc_unit_free (vmin vmax : Rat) (n : Nat) (a b : Rat) (ha : 0 < a) (hr :
   have hcode : code (a * vmin + b) (a * vmax + b) n (a * s + b) = code vmin vmax n s := by
     rw [code_eq, code_eq, pos_affine vmin vmax n a b ha hr]
   exact ⟨hcode, fun hn => by rw [hcode, level_affine vmin vmax n a b _ hn]⟩
+
+/-- **shortest_unit_free**: `shortest_int` commutes with a change of units `x ↦ a·x + b`, `a > 0` — same acceptance, and the
+    interval of the converted data is the converted interval (sorting, the lag, the RELATIVE tie test and the central pick are
+    all preserved).  This is what makes the eye estimator's levels (C17) and the ADC's range unit-independent. -/
+theorem shortest_unit_free (p a b : Rat) (ha : 0 < a) (data : List Rat) :
+    shortestInt p (data.map (fun x => a * x + b)) =
+      (shortestInt p data).map (fun r => (a * r.1 + b, a * r.2 + b)) :=
+  shortestIntP_map_aff _ _ _ p a b ha data
+
+/-- **adc_unit_free_record**: the whole converter is unit-free — `ADC(a·x + b, otype='n')` returns the codes of `ADC(x)`,
+    with the full-scale range converted (`a > 0`, any record with `V_min < V_max`) -/
+theorem adc_unit_free_record (signal : List Rat) (n : Nat) (a b : Rat) (ha : 0 < a) (r : AdcOut)
+    (h : adc signal n .n = .ok r) (hr : r.vmin < r.vmax) :
+    ∃ r', adc (signal.map (fun x => a * x + b)) n .n = .ok r' ∧ r'.codes = r.codes ∧ r'.out = r.out ∧
+      r'.vmin = a * r.vmin + b ∧ r'.vmax = a * r.vmax + b := by
+  obtain ⟨vmin, vmax, hs, _, hq⟩ := adc_is_quantise signal n .n r h
+  obtain ⟨h1, h2, hc, ho⟩ := quantise_ok vmin vmax n .n signal r hq
+  rw [h1, h2] at hr
+  have hs' := shortest_unit_free Gen.Quant.adcPercent a b ha signal
+  rw [hs] at hs'
+  have hne : a * vmax + b ≠ a * vmin + b := by
+    intro he
+    have : a * (vmax - vmin) = 0 := by linarith
+    rcases mul_eq_zero.mp this with h0 | h0
+    · exact absurd h0 ha.ne'
+    · linarith
+  have hcodes : (signal.map (fun x => a * x + b)).map (code (a * vmin + b) (a * vmax + b) n) = r.codes := by
+    rw [hc, List.map_map]
+    apply List.map_congr_left
+    intro s _
+    exact (adc_unit_free vmin vmax n a b ha hr s).1
+  refine ⟨⟨a * vmin + b, a * vmax + b, r.codes, r.codes.map (fun (c : Int) => (c : Rat))⟩, ?_, rfl, ?_, by rw [h1], by rw [h2]⟩
+  · unfold adc adcWith
+    rw [hs']
+    simp only [Except.map, bind, Except.bind, quantise, reduceCtorEq, if_false, hne, hcodes]
+  · rcases ho with ⟨_, ho⟩ | ⟨hv, _⟩
+    · exact ho.symm
+    · cases hv
+
+/-- non-vacuity of `shortest_unit_free`: an accepted tied record, in volts and in millivolts + 5 -/
+example : ∃ r, shortestInt 50 [3, 1, 2, 10, 4, 5] = .ok r ∧
+    shortestInt 50 ([3, 1, 2, 10, 4, 5].map (fun x => 1000 * x + 5)) = .ok (1000 * r.1 + 5, 1000 * r.2 + 5) := by
+  obtain ⟨r, hr⟩ := shortestInt_succeeds 50 [3, 1, 2, 10, 4, 5] (by norm_num) (by decide +kernel)
+  exact ⟨r, hr, by rw [shortest_unit_free 50 1000 5 (by norm_num), hr]; rfl⟩
 
 /-- non-vacuity: order preserved, levels are fixed points, volts ↦ millivolts + offset keeps the codes (3 bits) -/
 example : (quantise 0 7 3 .n [-1, 0, 1/3, 1/2, 5/2, 7/2, 7, 9]).map (·.codes) = .ok [0, 0, 0, 0, 2, 4, 7, 7] ∧
